@@ -63,7 +63,16 @@ def emit_step(g, kind: str, d: int, fault_arm: bool) -> None:
             o["n"] = 1
         if rng.random() < 0.5:
             o["at"] = g.index(size)
+        shrink_tiles = kind == "del_row" and tm.nrows > 256 and rng.random() < 0.6
+        if shrink_tiles:
+            # a table that spans several 256-row tiles shrinks to fewer tiles between two saves of the same Document
+            g.emit({"op": "save", "d": d, "slot": rng.choice(ALL_SLOTS)})
+            o["n"] = tm.nrows - rng.choice([256, 255, 200, 2])
+            if "at" in o:
+                o["at"] = rng.choice([0, 1, tm.nrows - o["n"]])
         g.emit(o)
+        if shrink_tiles:
+            g.emit({"op": "save", "d": d, "slot": rng.choice(ALL_SLOTS)})
     elif kind == "add_table":
         rows, cols = pick_shape(rng, rng.choice(["tiny", "small", "default"]))
         o = {"op": "add_table", "d": d, "s": s, "rows": rows, "cols": cols, "hr": min(rng.choice([0, 1, 2]), rows), "hc": min(rng.choice([0, 1]), cols)}
